@@ -124,9 +124,9 @@ Build(f, args) == f \o Cat([i \in 1..Len(args) |-> <<AT>> \o HexEncode(args[i])]
 TrueBytes == <<116, 114, 117, 101>>                   \* "true"
 FalseBytes == <<102, 97, 108, 115, 101>>              \* "false"
 ElemBytes(e) ==
-  CASE e.t = "bytes" -> e.b                           \* Bytes, Str (the bytes of the string)
+  CASE e.t \in {"bytes", "str"} -> e.b                \* Bytes, Str (the bytes of the string)
     [] e.t = "byte" -> <<e.n>>                        \* Byte
-    [] e.t = "int" -> BEBytes(IF e.n < 0 THEN 0 - e.n ELSE e.n)   \* Int, Int64: big.NewInt(n).Bytes() is the magnitude
+    [] e.t \in {"int", "int64"} -> BEBytes(IF e.n < 0 THEN 0 - e.n ELSE e.n)   \* Int, Int64: big.NewInt(n).Bytes() is the magnitude
     [] e.t = "big" -> StripZeros(e.b)                 \* BigInt: Bytes() of the number with this magnitude
     [] e.t = "bool" -> IF e.n = 1 THEN TrueBytes ELSE FalseBytes
 BuildElems(f, es) == Build(f, [i \in 1..Len(es) |-> ElemBytes(es[i])])
